@@ -51,6 +51,21 @@ def main(p):
                                         doc=(doc or '')[:300]))
         elif len(out['samples']) < 2:
             out['samples'].append(dict(element=full, kind=kind, comment=text))
+        # the asyncio client carries the same comments
+        adoc = None
+        try:
+            if kind == 'service':
+                adoc = lib.client_cls(full.rsplit('.', 1)[1], True).__doc__
+            elif kind == 'method':
+                svc, m = full.rsplit('.', 2)[1:]
+                adoc = getattr(lib.client_cls(svc, True), names.py_method(m)).__doc__
+        except AttributeError:
+            continue
+        if kind in ('service', 'method'):
+            out['checked'] += 1
+            if not adoc or not subsequence(words, adoc.split()):
+                out['failures'].append(dict(element=full, kind='async-' + kind, place=places.get(full, 'leading'),
+                                            what='comment words missing from the asyncio client docstring', text=text, doc=(adoc or '')[:300]))
     return out
 
 
